@@ -358,7 +358,7 @@ func (cs *ContractSet) ParseFile(path, pkgPath string) error {
 			curLoop = &LoopContract{N: n}
 			curFn.Loops[n] = curLoop
 			curHook = nil
-		case "call", "go", "defer", "send", "recv", "close", "return":
+		case "call", "go", "defer", "send", "recv", "close", "return", "default":
 			if curFn == nil {
 				return fmt.Errorf("%s:%d: hook outside func", path, line)
 			}
